@@ -65,6 +65,39 @@ def run(R):
             one(rng.randbytes(n))
             R.cover('long_lengths', n)
             R.count('long_inputs')
+    # inputs of megabytes, at exact powers of two and their multiples (where a chunked / windowed implementation has its seams): 2^20, 2 * 2^20, 2^24 and neighbours.
+    # Expected values from the table-driven reference (lib/crcref.crc32c_fast, itself compared with the bitwise definition on every shorter input above and on
+    # a 64 KiB prefix here); crc16 through the bitwise reference on the 2^20 sizes only (its cost)
+    if R.shard == 0:
+        base = rng.randbytes(1 << 20)
+        R.check(crcref.crc32c_fast(base[:65536]) == crcref.crc32c(base[:65536]), 'harness-fast-reference-disagrees', 'table-driven reference differs from the bitwise definition')
+        megas = [(1 << 20) - 1, 1 << 20, (1 << 20) + 1, 2 << 20, (2 << 20) + 3, 3 << 19] + ([(1 << 24) + 5] if quick else
+                                                                                          [(1 << 24) - 1, 1 << 24, (1 << 24) + 5, 3 << 23, (1 << 25) + 1, 5 << 20])
+        for n in megas:
+            d = (base * (n // len(base) + 1))[:n]
+            d = d[:7] + bytes([n & 0xFF, (n >> 8) & 0xFF]) + d[9:]
+            w32 = crcref.crc32c_fast(d)
+            for order in ('little', 'big'):
+                st, got = mon.call(crc32c, d, order)
+                R.check(st == 'ok' and got == w32.to_bytes(4, order), f'crc32c-{order}-megabytes', f'crc32c({n} bytes, {order!r}) differs from the definition: {got!r}', {'len': n})
+            if n <= (1 << 20) + 1:
+                st, got = mon.call(crc16, d)
+                R.check(st == 'ok' and got == crcref.crc16_xmodem(d).to_bytes(2, 'big'), 'crc16-megabytes', f'crc16({n} bytes) differs from the definition', {'len': n})
+            R.cover('long_lengths', n)
+            R.count('megabyte_inputs')
+            R.case(mon.fp('mega', n))
+    # the byte order is a value: text that equals 'big' / 'little' but was built at run time (not the interned literal: from a config file, .lower(), a str subclass)
+    class Word(str):
+        pass
+    for d in (b'123456789', rng.randbytes(33), b''):
+        w32 = crcref.crc32c(d)
+        for order in ('big', 'little'):
+            for fname, o in (('lower()', order.upper().lower()), ('join', ''.join(list(order))), ('decoded', order.encode().decode()), ('str-subclass', Word(order)),
+                             ('sliced', ('x' + order + 'y')[1:-1])):
+                st, got = mon.call(crc32c, d, o)
+                R.check(st == 'ok' and got == w32.to_bytes(4, order), f'crc32c-{order}-byteorder-built-at-run-time', f'crc32c(data, {order!r} built by {fname}) gives {got!r}, '
+                        f'the {order}-endian bytes are {w32.to_bytes(4, order)!r}', {'data': d[:32], 'how': fname})
+                R.count('runtime_byteorder_strings')
     # every kind of byte string the functions accept: bytes, bytearray, memoryview (also of a larger buffer, and read-only / writable)
     for n in (0, 1, 4, 9, 64, 4097):
         d = rng.randbytes(n)
